@@ -1053,8 +1053,12 @@ def get_mixed_range_representation(array: np.ndarray,
 
     out = []
     for pair in output_expressions:
-        value = get_range_representation(array[pair[0]:pair[1]], filename_mode)
-        assert (value is not None)
+        sub_array = array[pair[0]:pair[1]]
+        value = get_range_representation(sub_array, filename_mode)
+        if value is None:
+            # The steps were only close to each other (or wrapped around for
+            # an unsigned dtype): not an arithmetic progression after all
+            value = ','.join(sub_array.astype(str))
         if value != '':
             out.append(value)
 
